@@ -81,4 +81,32 @@ pub fn run(cx: &mut Ctx) {
             cb(&|| format!("n={} graph/rng seed {}", n, seed), v);
         } }
     });
+    // adversarial starts: among 200 random decompositions the NARROWEST one, and among those the one with the WORST
+    // score — a start the annealer is tempted to leave for a lower-scoring but wider tree
+    cx.check("annealer_keeps_a_narrow_start", |cb| {
+        use quizx::rankwidth::annealer::RankwidthAnnealer;
+        for n in 8..=11usize { for gs in 0..20u64 {
+            let g = make_graph(n, gs * 13 + n as u64);
+            let mut r0 = SmallRng::seed_from_u64(gs);
+            let mut best: Option<(usize, usize, DecompTree)> = None;
+            for _ in 0..200 {
+                let mut t = DecompTree::random_decomp(&g, &mut r0);
+                let (w, sc) = (t.rankwidth(&g), t.rankwidth_score(&g));
+                if best.as_ref().map_or(true, |(bw, bs, _)| w < *bw || (w == *bw && sc > *bs)) { best = Some((w, sc, t)); }
+            }
+            let (w0, s0, start) = best.unwrap();
+            for seed in 0..12u64 {
+                let v = guard(|| {
+                    let mut ann = RankwidthAnnealer::new_with_decomp(g.clone(), start.clone(), SmallRng::seed_from_u64(seed));
+                    let mut res = ann.run();
+                    valid(&res, &g)?;
+                    res.clear_ranks();
+                    let w1 = res.rankwidth(&g);
+                    if w1 > w0 { return Err(format!("start width {} (score {}), returned width {}", w0, s0, w1)); }
+                    Ok(())
+                }).and_then(|r| r);
+                cb(&|| format!("n={} graph seed {} annealer seed {}", n, gs, seed), v);
+            }
+        } }
+    });
 }
